@@ -1025,3 +1025,46 @@ pub fn generate_c14(rng: &mut Rng) -> RunSpec {
     cfg.full_check_every = if ops.len() > 400 { 16 } else { 1 };
     RunSpec { cfg, ops, faults: Vec::new(), mode: None }
 }
+
+
+/// C02/C03 thorough: one map grown across many table doublings (to ~2^17..2^18 elements) by
+/// fresh insertions, interleaved with removals (tombstones), overwrites of old-table elements,
+/// lookups and handle insertions; the per-call bounds are checked on every call, the contents
+/// every 8192 steps.
+pub fn generate_growth(rng: &mut Rng) -> RunSpec {
+    let mut prof = Profile::base();
+    prof.elem = [1, 0, 0];
+    prof.hashers = [6, 0, 0, 2, 1];
+    let mut cfg = Gen::draw_config(rng, &prof);
+    cfg.universe = 1 << 20;
+    cfg.map_cap0 = vec![if rng.chance(1, 2) { 0 } else { rng.below(100) as usize }];
+    cfg.full_check_every = 8192;
+    let target = (1u32 << 17) + rng.below(1 << 17) as u32;
+    let mut ops: Vec<Op> = Vec::with_capacity(target as usize * 2);
+    let mut next: u32 = 0;
+    let mut p: u32 = 0;
+    let remove_pct = *rng.pick(&[0u64, 5, 15, 30]);
+    while next < target {
+        let r = rng.below(100);
+        p += 1;
+        if r < remove_pct && next > 16 {
+            // remove a recent or an old key (recent ones are likely still in the old table)
+            let k = if rng.chance(1, 2) { next - 1 - rng.below(16.min(next as u64)) as u32 } else { rng.below(next as u64) as u32 };
+            ops.push(Op::Remove { m: 0, k: KeySel::Kv(k) });
+        } else if r < remove_pct + 6 && next > 0 {
+            ops.push(Op::Insert { m: 0, k: KeySel::Kv(rng.below(next as u64) as u32), p });
+        } else if r < remove_pct + 10 && next > 0 {
+            ops.push(Op::Get { m: 0, k: KeySel::Kv(rng.below(next as u64 + 8) as u32) });
+        } else if r < remove_pct + 13 {
+            ops.push(Op::Entry { m: 0, k: KeySel::Kv(next), chain: vec![EStep::OrInsert], p: p << 4 });
+            next += 1;
+        } else if r < remove_pct + 15 {
+            ops.push(Op::RawMut { m: 0, k: KeySel::Kv(next), how: Lookup::FromKey, chain: vec![RStep::VacInsert], p: p << 4 });
+            next += 1;
+        } else {
+            ops.push(Op::Insert { m: 0, k: KeySel::Kv(next), p });
+            next += 1;
+        }
+    }
+    RunSpec { cfg, ops, faults: Vec::new(), mode: None }
+}
